@@ -22,7 +22,7 @@ use support::rng::{Fp, Rng};
 const ABSENT: u32 = 9;
 const FRESH: u32 = 77;
 
-pub const MAP_OPS: [&str; 55] = [
+pub const MAP_OPS: [&str; 57] = [
     "insert", "insert_key_value", "checked_insert", "remove(q)", "remove(k)", "remove_entry(q)", "get(q)", "get(k)",
     "get_mut(q)", "contains_key(k)", "get_key_value(q)", "index(q)", "index_mut(k)", "retain(some)", "retain(none)",
     "clear", "drain.take0.drop", "drain.take1.drop", "clone", "eq(equal)", "eq(different)", "entry.or_insert",
@@ -32,20 +32,20 @@ pub const MAP_OPS: [&str; 55] = [
     "fmt.iter-debug", "fmt.drain-debug", "retain(mutate)", "entry.get|get_mut|into_mut", "clone-from-clone.eq",
     "drain.take-all", "from(array)", "insert_unchecked", "into_iter.for_each", "into_iter.last", "into_keys.fold",
     "into_values.for_each", "drain.for_each", "iter_mut.for_each", "values_mut.fold", "into_iter.nth1.drop", "drain.nth1.drop",
-    "into_iter.skip1.collect",
+    "into_iter.skip1.collect", "clone_from(same length)", "clone_from(shorter target)",
 ];
 /// which map ops take a key argument (the others run once per state)
 fn map_op_keyed(op: usize) -> bool {
     matches!(op, 0..=12 | 21..=28 | 34 | 40 | 44)
 }
 
-pub const SET_OPS: [&str; 33] = [
+pub const SET_OPS: [&str; 34] = [
     "set.insert", "set.replace", "set.remove(q)", "set.take(k)", "set.get(q)", "set.contains(k)", "set.retain(some)",
     "set.clear", "set.drain.take1.drop", "set.clone", "set.eq", "set.extend", "set.from_iter", "set.union",
     "set.intersection", "set.difference", "set.symmetric_difference", "set.is_subset", "set.is_superset",
     "set.is_disjoint", "set.sub", "set.into_iter.take1.drop", "drop(set)", "set.fmt.debug", "set.fmt.display",
     "set.union.debug", "set.difference.fold", "set.retain(none)", "set.extend(overflow)", "set.intersection.debug",
-    "set.into_iter.for_each", "set.drain.for_each", "set.iter.fold",
+    "set.into_iter.for_each", "set.drain.for_each", "set.iter.fold", "set.clone_from",
 ];
 fn set_op_keyed(op: usize) -> bool {
     matches!(op, 0..=5)
@@ -444,6 +444,12 @@ fn run_map_op<F: Fam, const N: usize>(op: usize, kc: u32, layout: &[u32], env: &
         19 | 20 => {
             let _ = env.m.as_ref().unwrap() == env.b.as_ref().unwrap();
             let _ = env.b.as_ref().unwrap() == env.m.as_ref().unwrap();
+        }
+        55 | 56 => {
+            // overwrite a live target: whatever clone_from does with the target's old pairs, a Clone that unwinds
+            // half-way must leave both maps well-formed
+            let (m, b) = (env.m.as_ref().unwrap(), env.b.as_mut().unwrap());
+            b.clone_from(m);
         }
         41 => {
             let c = env.m.as_ref().unwrap().clone();
@@ -849,6 +855,10 @@ fn run_set_op<F: Fam, const N: usize, const M: usize>(op: usize, kc: u32, layout
             });
             let _ = std::hint::black_box(n);
         }
+        33 => {
+            let (s, t) = (env.s.as_ref().unwrap(), env.out.as_mut().unwrap());
+            t.clone_from(s);
+        }
         _ => unreachable!(),
     }
 }
@@ -899,8 +909,11 @@ impl<'a> Drv<'a> {
             ledger::reset();
             ledger::set_ctx(self.case_no, k as u32, name);
             let mut env: MapEnv<F, N> = MapEnv { m: Some(build_map::<F, N>(layout)), b: None, out: None };
-            if op == 19 {
+            if op == 19 || op == 55 {
+                // the same keys in the opposite slot order
                 env.b = Some(build_map::<F, N>(&layout.iter().rev().copied().collect::<Vec<_>>()));
+            } else if op == 56 {
+                env.b = Some(build_map::<F, N>(&layout.iter().rev().take(layout.len() / 2).copied().collect::<Vec<_>>()));
             } else if op == 20 {
                 let mut l2: Vec<u32> = layout.to_vec();
                 if let Some(x) = l2.last_mut() {
@@ -980,6 +993,11 @@ impl<'a> Drv<'a> {
             let mut env: SetEnv<F, N, M> = SetEnv { s: Some(build_set::<F, N>(layout)), t: None, out: None };
             if set_op_binary(op) {
                 env.t = Some(build_set::<F, M>(other));
+            }
+            if op == 33 {
+                // target of clone_from: the same elements in the opposite slot order
+                let l2: Vec<u32> = layout.iter().rev().copied().collect();
+                env.out = Some(build_set::<F, N>(&l2));
             }
             fault::begin(k == 0, if k == 0 { None } else { Some(k) });
             let r = fault::catch(|| run_set_op::<F, N, M>(op, kc, layout, &mut env));
